@@ -97,7 +97,10 @@ func (j *jsonSubProto) Unpack(m erpc.Message) error {
 	// read transfer pipe
 	xferPipe := gjson.Get(s, "xferPipe")
 	for _, r := range xferPipe.Array() {
-		m.XferPipe().Append(byte(r.Int()))
+		// a filter that is not registered here cannot be undone: refuse the frame
+		if err = m.XferPipe().Append(byte(r.Int())); err != nil {
+			return err
+		}
 	}
 
 	// read body
